@@ -164,6 +164,10 @@ type Tmpl struct {
 	// IssuerName overrides the issuer DN (issuer name != signer's subject).
 	IssuerName *pkix.Name
 
+	// EmptySubject issues the certificate with an empty subject name and a (then mandatory, critical) subject alternative name:
+	// legal under RFC 5280 §4.1.2.6, and its printed subject is the empty string.
+	EmptySubject bool
+
 	// SHA1 signs the certificate with sha1WithRSAEncryption / ecdsa-with-SHA1 (a valid signature under a deprecated algorithm).
 	SHA1 bool
 }
@@ -251,6 +255,10 @@ func Issue(t Tmpl, subjectKey *Key, parent *Cert, signer *Key) *Cert {
 		Subject:      pkix.Name{CommonName: t.CN, Organization: []string{"verif"}},
 		NotBefore:    t.NotBefore,
 		NotAfter:     t.NotAfter,
+	}
+	if t.EmptySubject {
+		tm.Subject = pkix.Name{}
+		tm.DNSNames = []string{"nameless.verif.test"}
 	}
 	if tm.SerialNumber == nil {
 		tm.SerialNumber = nextSerial()
